@@ -159,7 +159,14 @@ class Ctx:
             depth=None, coverage=False, dfs=False, xss="64m", heap=None, jvm=(), args=()):
         """Run TLC on spec/<module>.tla with spec/<cfg> in a private scratch copy."""
         d = self._tlcdir(module, extra_files)
-        workers = workers or NCPU
+        if not workers:
+            # all cores on a quiet machine; fewer when many checks / agents run at the same time
+            try:
+                load = os.getloadavg()[0]
+            except OSError:
+                load = 0
+            workers = int(os.environ.get("VERIF_WORKERS", "0")) or \
+                (NCPU if load < NCPU * 0.75 else max(4, NCPU // 4))
         cmd = ["java", "-XX:+UseParallelGC", "-Xss" + xss]
         cmd.append("-Xmx" + (heap or "6g"))    # several checks / agents may run at the same time
         if dfs:
